@@ -570,7 +570,13 @@ func init() {
 				ee.Preempt = 1
 			}
 			ee.Stubs = map[string]interceptFn{repoModule + "/internal/transfer.readAtWithPool": stubReadAtDirect}
-			return []*Job{n, r, tw, ee}
+			wk := hj("C03.wake", "H_C03_wake", "one frame, one file: every blocking-point schedule plus one preemption before a lock operation (wake-up between lookup and wait)")
+			wk.Threads, wk.Workers, wk.MaxPaths, wk.TimersNeverFire = true, 16, 5000000, true
+			wk.Preempt, wk.PreemptAt = 2, "lock"
+			wk.EagerCalls = []string{"writeFileDone", "hashFileChunk"}
+			wk.ReplayInstr = []SrcInsert{{File: "internal/transfer/multistream.go", Anchor: "if !fileReady.wait(recvCtx, fileKey", Text: "\t\t\t\t\tvRecvYield()", Before: true}}
+			wk.CancelOnlyIdle, wk.BlockedOK = true, true // the caller cancels once everybody waits; the branch in which it never does is not judged
+			return []*Job{n, r, tw, ee, wk}
 		},
 	})
 
